@@ -134,14 +134,19 @@ def handle (op : String) (args : List String) : Option String :=
       let kv ← parseKV pub privs sym syms
       pure (outHex (hashProcessor C (← parseOpt hk) (process C kv) (← ofHex d)))
   | "match", [d] => do pure ((matchEnvelope (← ofHex d)).render toString)
-  -- oncolumn hkey state data
-  | "oncolumn", [hk, st, d] => do
-      pure ((pOnColumn C (← parseOpt hk) (← parseSt st) (← ofHex d)).render fun o =>
+  -- oncolumn hkey second state data
+  | "oncolumn", [hk, sec, st, d] => do
+      pure ((pOnColumn C (← parseOpt hk) (sec == "true") (← parseSt st) (← ofHex d)).render fun o =>
         s!"{stStr o.st} {hexOf o.data} {o.notDecrypted}")
   -- columns hkey [kv ×4] cols   (one Processor object, the subscriber chain of proxy.go per column)
   | "columns", [hk, pub, privs, sym, syms, cols] => do
       let kv ← parseKV pub privs sym syms
       pure ((columns C (← parseOpt hk) (clientDetector C kv) PState.init (← parseList cols)).render fun (s, os) =>
+        s!"{stStr s} {optListStr os}")
+  -- the pinned tree's processor (before the repair): regression witnesses only, model side
+  | "legacy.columns", [hk, pub, privs, sym, syms, cols] => do
+      let kv ← parseKV pub privs sym syms
+      pure ((legacyColumns C (← parseOpt hk) (clientDetector C kv) PState.init (← parseList cols)).render fun (s, os) =>
         s!"{stStr s} {optListStr os}")
   | "tr.encrypt", [k, hk, pub, privs, sym, syms, d, rnd] => do
       pure ((translatorEncrypt C (← parseOpt hk) (← parseKV pub privs sym syms) (← parseKind k) (← ofHex d) (← ofHex rnd)).render
